@@ -12,6 +12,7 @@ rm -rf $WORK; mkdir -p $WORK /verif/replays/$ID /verif/corpus/$T
 LOG=/verif/target/fuzz-$T.log
 cargo +nightly fuzz build --target-dir /verif/target/fuzz $T > /verif/target/fuzz-build-$T.log 2>&1 || { echo "INCONCLUSIVE: fuzz build failed, see /verif/target/fuzz-build-$T.log" >&2; exit 2; }
 t0=$(date +%s)
+mkdir -p $WORK /verif/replays/$ID /verif/corpus/$T
 cargo +nightly fuzz run --target-dir /verif/target/fuzz $T $WORK /verif/corpus/$T -- -runs=$RUNS -seed=$SEED -len_control=0 -max_len=768 -artifact_prefix=/verif/replays/$ID/fuzz-$T- > $LOG 2>&1
 rc=$?
 t1=$(date +%s)
